@@ -143,7 +143,7 @@ def main():
     root = "/verif/mutants"
     import glob
     for f in glob.glob(root + "/*/*"):
-        if not os.path.basename(f).startswith(("seed-", "neutral-")):
+        if not os.path.basename(f).startswith(("seed-", "neutral-", "neutral2-")):
             os.remove(f)
     scratch = tempfile.mkdtemp(prefix="mkmut.")
     try:
